@@ -49,6 +49,9 @@ type Ev struct {
 
 type CaseA struct {
 	Evs []Ev `json:"evs"`
+	// Quiet: sessions for which the data plane's answer to a usage query holds no report (nothing measured, or the
+	// rule is not there any more): they stay registered and are asked again at every tick all the same
+	Quiet []uint64 `json:"quiet,omitempty"`
 }
 
 var periods = []time.Duration{2 * time.Hour, 3 * time.Hour, 5 * time.Hour}
@@ -73,6 +76,7 @@ type recorder struct {
 	entered  chan struct{}
 	sentinel chan struct{}
 	hold     chan struct{}
+	quiet    map[uint64]bool
 }
 
 type delivery struct {
@@ -125,6 +129,9 @@ func (r *recorder) query(m map[uint64][]uint32) (map[uint64][]report.USAReport, 
 	out := map[uint64][]report.USAReport{}
 	for s, ids := range m {
 		cp[s] = append([]uint32(nil), ids...)
+		if r.quiet[s] {
+			continue
+		}
 		for _, id := range ids {
 			out[s] = append(out[s], report.USAReport{URRID: id})
 		}
@@ -154,7 +161,10 @@ func runA(c CaseA) (v *vcore.Violation, stt statsA) {
 	if err != nil {
 		panic(err)
 	}
-	rec := &recorder{sentinel: make(chan struct{}, 4)}
+	rec := &recorder{sentinel: make(chan struct{}, 4), quiet: map[uint64]bool{}}
+	for _, q := range c.Quiet {
+		rec.quiet[q] = true
+	}
 	ps.Handle(rec, rec.query)
 	closed := false
 	closeAndWait := func() *vcore.Violation {
@@ -337,7 +347,9 @@ func runA(c CaseA) (v *vcore.Violation, stt statsA) {
 	wantD := map[pair]int{}
 	for _, w := range wantQ {
 		for p := range w {
-			wantD[p]++
+			if !rec.quiet[p.seid] {
+				wantD[p]++
+			}
 		}
 	}
 	gotD := map[pair]int{}
@@ -466,6 +478,13 @@ func genA(t *rapid.T) CaseA {
 			c.Evs = append(c.Evs, e)
 		}
 	}
+	if rapid.IntRange(0, 2).Draw(t, "quiet") == 0 {
+		for sd := uint64(1); sd <= 6; sd++ {
+			if rapid.IntRange(0, 2).Draw(t, "quiet_seid") == 0 {
+				c.Quiet = append(c.Quiet, sd)
+			}
+		}
+	}
 	return c
 }
 
@@ -574,6 +593,9 @@ func runB(c CaseB) (v *vcore.Violation, crossed bool) {
 func accountA(c CaseA, s statsA) {
 	vcore.E.Eval()
 	vcore.E.Class("perio_history")
+	if len(c.Quiet) > 0 {
+		vcore.E.Class("sessions_without_a_report_in_the_answer")
+	}
 	if s.interleaved {
 		vcore.E.Class("tick_after_4+_add_del")
 	}
